@@ -80,7 +80,7 @@ def catalogue():
         "uninterleave-0": (lambda L: E.uninterleave(L, CTX)[0], (2, 1), "everyother 0"),
         "negate": (lambda L: E.negate(L, CTX), (1, 0), "neg 0"),
         "halve": (lambda L: E.halve(L, CTX), (1, 0), None),
-        "group-consecutive": (lambda L: E.group_consecutive(L, CTX), (1, 2), None),
+        "group-consecutive": (lambda L: E.group_consecutive(L, CTX), (1, 2), "group 1"),
     }
 
 
